@@ -7,6 +7,7 @@ Decides (shape on every path; not read-after-write over histories/configurations
                are disjoint
   3 SENTINEL   in load/store_internal_value the only `None` (= "fall through to external") source is "not an internal address"
   4 GUARD-DOM  read-only: every CPU-path store into external/overlay data is dominated by the read-only test
+               and the 'not handled' verdict of an overlay write is unreachable for a read-only overlay
   5 FORM       multi-byte accessors are little-endian compositions of byte accesses (same loop variable in index and shift)
 """
 from __future__ import annotations
